@@ -45,6 +45,8 @@ var c06SrcCands = []string{
 	"@@||ref.com^$urlblock,genericblock", "@@||ref.com^$genericblock,document", "@@||ref.com^$genericblock,urlblock,important",
 	// a document-level exception that is a stealth exception as well
 	"@@||ref.com^$document,stealth", "@@||ref.com^$urlblock,stealth", "@@||ref.com^$genericblock,stealth",
+	// DNS rewrites never take part in a web verdict, on the referrer's side either
+	"@@||ref.com^$urlblock,dnsrewrite", "@@||ref.com^$genericblock,dnsrewrite=1.2.3.4", "@@||ref.com^$document,dnsrewrite", "@@||ref.com^$urlblock,important,dnsrewrite",
 }
 
 // referrer-level exceptions for another page of the referrer's host: they match the
